@@ -86,8 +86,12 @@ def build_spec(case, PROP, r):
                 c.add(gen.origin_op(metagen.obj_name(c, 'origin', 0), fsn=gen.gen_int(r, 1, 2 ** 30 - 1), ctime=gen.gen_dt(r), **attrs))
             elif t == 'channel':
                 i = metagen.add_channel_with_data(c, 3, 10 + j)
-                sp['ops'][i]['attrs'].update(metagen.pick_attrs(c, 'channel', 1.0 if mode == 'all' else 0.5,
-                                                                 exclude=('dimension', 'element_limit', 'axis')))
+                extra = metagen.pick_attrs(c, 'channel', 1.0 if mode == 'all' else 0.5,
+                                           exclude=('dimension', 'element_limit', 'axis'))
+                if extra.get('source') == {'$ref': i} or (isinstance(extra.get('source'), dict) and
+                                                          extra['source'].get('$setup', {}).get('value') == {'$ref': i}):
+                    extra.pop('source')        # an object cannot be passed to its own constructor
+                sp['ops'][i]['attrs'].update(extra)
                 c.add(gen.frame_op(metagen.obj_name(c, 'frame', 0), [i]))
             else:
                 i = metagen.add_channel_with_data(c, 3, 20 + j, index=True)
